@@ -65,6 +65,10 @@ func (c *compiler) loadSymbols() {
 				}
 			} else if strings.ToLower(line.op) == "org" {
 				c.startExpr = line.a
+				// a label on the ORG line denotes the instruction that follows
+				for _, label := range line.labels {
+					c.labels[label] = curPseudoLine
+				}
 			} else if strings.ToLower(line.op) == "end" {
 				if len(line.a) > 0 {
 					c.startExpr = line.a
